@@ -3,6 +3,7 @@ package checks
 import (
 	"bytes"
 	"context"
+	"encoding/json"
 	"fmt"
 	"os"
 	"os/exec"
@@ -37,8 +38,69 @@ type c26Res struct {
 	Timeout bool
 }
 
+// Development aid: VERIF_C26_CACHE=<file> keeps bash results (JSON lines) so
+// that classification work does not pay for bash again. A run that uses it
+// records a cap note (never claimed exhaustive).
+var c26Cache struct {
+	sync.Mutex
+	on bool
+	m  map[string]c26Res
+	f  *os.File
+}
+
+func c26CacheOpen(path string) {
+	c26Cache.on = true
+	c26Cache.m = map[string]c26Res{}
+	if data, err := os.ReadFile(path); err == nil {
+		for _, ln := range strings.Split(string(data), "\n") {
+			var e struct {
+				K string
+				R c26Res
+			}
+			if json.Unmarshal([]byte(ln), &e) == nil && e.K != "" {
+				c26Cache.m[e.K] = e.R
+			}
+		}
+	}
+	c26Cache.f, _ = os.OpenFile(path, os.O_APPEND|os.O_CREATE|os.O_WRONLY, 0o644)
+}
+
+func c26CacheGet(k string) (c26Res, bool) {
+	if !c26Cache.on {
+		return c26Res{}, false
+	}
+	c26Cache.Lock()
+	defer c26Cache.Unlock()
+	r, ok := c26Cache.m[k]
+	return r, ok
+}
+
+func c26CachePut(k string, r c26Res) {
+	if !c26Cache.on || r.Timeout {
+		return
+	}
+	c26Cache.Lock()
+	defer c26Cache.Unlock()
+	c26Cache.m[k] = r
+	if c26Cache.f != nil {
+		b, _ := json.Marshal(map[string]any{"K": k, "R": r})
+		c26Cache.f.Write(append(b, '\n'))
+	}
+}
+
 // c26Bash runs one program as a script file of its own bash process, in dir.
 func c26Bash(src, dir string, to time.Duration) (c26Res, error) {
+	if r, ok := c26CacheGet("S\x00" + src); ok {
+		return r, nil
+	}
+	r, err := c26BashRun(src, dir, to)
+	if err == nil {
+		c26CachePut("S\x00"+src, r)
+	}
+	return r, err
+}
+
+func c26BashRun(src, dir string, to time.Duration) (c26Res, error) {
 	f, err := os.CreateTemp("", "c26-*.sh")
 	if err != nil {
 		return c26Res{}, err
@@ -70,6 +132,33 @@ func c26Bash(src, dir string, to time.Duration) (c26Res, error) {
 // program killed or confused the outer shell) or the process timed out: the
 // caller then falls back to one process per program.
 func c26BashBatch(srcs []string, dirs []string, to time.Duration) (res []c26Res, ok bool) {
+	if c26Cache.on {
+		res = make([]c26Res, len(srcs))
+		var msrc, mdirs []string
+		var midx []int
+		for i, s := range srcs {
+			if r, ok := c26CacheGet("B\x00" + s); ok {
+				res[i] = r
+			} else {
+				msrc, mdirs, midx = append(msrc, s), append(mdirs, dirs[i]), append(midx, i)
+			}
+		}
+		if len(msrc) > 0 {
+			rs, ok := c26BashBatchRun(msrc, mdirs, to)
+			if !ok {
+				return nil, false
+			}
+			for j, i := range midx {
+				res[i] = rs[j]
+				c26CachePut("B\x00"+msrc[j], rs[j])
+			}
+		}
+		return res, true
+	}
+	return c26BashBatchRun(srcs, dirs, to)
+}
+
+func c26BashBatchRun(srcs []string, dirs []string, to time.Duration) (res []c26Res, ok bool) {
 	var sb strings.Builder
 	for i, s := range srcs {
 		sb.WriteString("(\ncd " + oracle.ShQuote(dirs[i]) + " || exit 99\n")
@@ -120,6 +209,10 @@ func c26NeedsDir(src string) bool { return strings.ContainsAny(src, "<>") || str
 
 var c26DirSeq atomic.Int64
 
+// c26Timeout is a hang guard for one bash process running one program (not
+// an oracle): generous because fork can take 0.2 s on a loaded machine.
+const c26Timeout = 60 * time.Second
+
 func c26Interp(src, dir string) oracle.InterpResult {
 	return oracle.RunInterp(src, oracle.InterpOpts{Dir: dir, Env: c26Env, NoExec: true, Timeout: 5 * time.Second})
 }
@@ -128,12 +221,16 @@ func c26(c *vc.Ctx) {
 	thorough := !c.Quick()
 	c.Reruns = 1
 	c26BuildAtoms()
+	if p := os.Getenv("VERIF_C26_CACHE"); p != "" {
+		c26CacheOpen(p)
+		c.CapNote("VERIF_C26_CACHE is set: bash results may come from a previous run (development aid)")
+	}
 	c.Rule = fmt.Sprintf("grammar G_exec: %d feature atoms (control flow, functions/return, locals, subshells, command substitution, pipelines of builtins, here-docs/strings, file redirections, case, [[ ]], test, arrays, set -e/pipefail, EXIT/ERR traps, break/continue levels; %d of them 'core', %d 'setup') composed through %d unary and %d binary contexts; quick: every atom in every unary context alone and after every setup atom, and every binary context over core x core; thorough adds binary contexts over all x all, setup + binary(core,core), two nested unary contexts (alone and after core setups), and two setups + unary(core). Every program ends with `echo end:$?`. Plus the 1-edit literal mutants (quick: integer neighbours and deletion of literal arguments of seeds <= 80 bytes; thorough: also replacement by x / '' and duplication, all seeds) of the string literals of interp/interp_test.go that parse, terminate, and already agree with bash unmutated. distinct = distinct (stdout,status) results of the interpreter", len(c26Atoms), c26CountAtoms(func(a c26Atom) bool { return a.Core }), c26CountAtoms(func(a c26Atom) bool { return a.Setup }), len(c26Unary), len(c26Binary))
 	c.Assumptions = []string{
 		"bash 5.2.15 is the oracle; stderr is ignored on both sides; environment LC_ALL=C.utf8 PATH=/nonexistent HOME=/nonexistent, stdin empty, cwd a fresh scratch directory",
 		"external commands are unavailable on both sides (interp: exec handler returning 127; bash: empty PATH), so only builtins run",
 		"for throughput a batch of programs runs as `( cd dir; program ) 2>/dev/null` subshells of one bash process; every disagreement is re-judged with the program as the script of its own bash process before it is reported, so batching can hide but never invent a divergence",
-		"a program on which bash or the interpreter exceeds 5 s is counted as skipped_timeout, not judged",
+		"a program on which bash or the interpreter exceeds its hang guard (interpreter 5 s, bash 60 s) is counted as skipped_timeout, not judged",
 	}
 	root, err := os.MkdirTemp("", "c26-")
 	if err != nil {
@@ -201,7 +298,7 @@ func c26(c *vc.Ctx) {
 				bidx = append(bidx, i)
 				continue
 			}
-			r, err := c26Bash(t.Src, mk("b", i, true), 5*time.Second)
+			r, err := c26Bash(t.Src, mk("b", i, true), c26Timeout)
 			if err != nil {
 				panic(err)
 			}
@@ -212,11 +309,11 @@ func c26(c *vc.Ctx) {
 			bres[i], judged[i] = r, true
 		}
 		if len(bsrc) > 0 {
-			rs, ok := c26BashBatch(bsrc, bdirs, 120*time.Second)
+			rs, ok := c26BashBatch(bsrc, bdirs, 30*time.Minute)
 			if !ok {
 				c.Count("batch_fallbacks", 1)
 				for j, i := range bidx {
-					r, err := c26Bash(bsrc[j], bdirs[j], 5*time.Second)
+					r, err := c26Bash(bsrc[j], bdirs[j], c26Timeout)
 					if err != nil {
 						panic(err)
 					}
@@ -253,7 +350,7 @@ func c26(c *vc.Ctx) {
 			}
 			if len(batch) > 1 && t.Kind == "g" {
 				// confirm with a bash process of its own before reporting
-				r, err := c26Bash(t.Src, mk("c", i, true), 5*time.Second)
+				r, err := c26Bash(t.Src, mk("c", i, true), c26Timeout)
 				if err != nil {
 					panic(err)
 				}
